@@ -18,7 +18,45 @@ namespace Fc
 def pollSeg (c slot : Nat) (wk : Wk) (l : List Ev) (r : Res) (evs : List Ev) (t : List Ev) : List Ev :=
   evs.reverse ++ (.childEnd c r :: (l ++ .childBegin c slot wk :: t))
 
-structure Sim {σ : Type} (P : Policy σ) (m : Mode) (I : σ → List Ev → Prop)
+/-- every step the scripts can still answer satisfies `K child` (an exhausted script answers
+    `Pending`): the kind of result a child can produce at all — a future never yields items, a
+    stream never resolves -/
+structure ScriptsOk (K : Nat → Res → Prop) (w : World) : Prop where
+  pend : ∀ c, K c .pend
+  mem : ∀ c st, st ∈ w.scripts c → K c st.res
+
+theorem ScriptsOk.resOf {K : Nat → Res → Prop} {w : World} (h : ScriptsOk K w) (c : Nat) :
+    K c (w.resOf c) := by
+  unfold World.resOf World.stepOf
+  split
+  · exact h.pend c
+  · rename_i s l hs
+    exact h.mem c s (by rw [hs]; exact List.mem_cons_self ..)
+
+theorem ScriptsOk.of_scripts {K : Nat → Res → Prop} {w w' : World} (h : ScriptsOk K w)
+    (hs : w'.scripts = w.scripts) : ScriptsOk K w' :=
+  ⟨h.pend, fun c st hm => h.mem c st (by rw [← hs]; exact hm)⟩
+
+theorem emits_scripts (w : World) (l : List Ev) : (w.emits l).scripts = w.scripts := rfl
+
+theorem kop_scripts (w : World) (k : KOp) : (w.kop k).scripts = w.scripts := by
+  cases k with
+  | nop => rfl
+  | arm i => simp [World.kop]
+  | armAll => simp only [World.kop, World.setAllReady]; cases w.mode <;> rfl
+
+theorem ScriptsOk.pollChild {K : Nat → Res → Prop} {w : World} (h : ScriptsOk K w) (c slot : Nat) :
+    ScriptsOk K (w.pollChild c slot) := by
+  refine ⟨h.pend, fun c' st hm => ?_⟩
+  simp only [World.pollChild, World.emit_scripts, World.fires_scripts] at hm
+  by_cases hc : c' = c
+  · subst hc
+    simp only [upd_same] at hm
+    exact h.mem _ st (List.mem_of_mem_tail hm)
+  · simp only [upd_other _ _ _ _ hc] at hm
+    exact h.mem _ st hm
+
+structure Sim {σ : Type} (P : Policy σ) (m : Mode) (K : Nat → Res → Prop) (I : σ → List Ev → Prop)
     (J : σ → List Ev → List Nat → Prop) : Prop where
   /-- a wake-up between polls -/
   fireEv : ∀ s t e, isFireEv e = true → I s t → I s (e :: t)
@@ -30,10 +68,10 @@ structure Sim {σ : Type} (P : Policy σ) (m : Mode) (I : σ → List Ev → Pro
     I s (.pollEnd .pending :: t)
   skip : ∀ s t i rest, (m = .direct → P.eligible s i = false) → J s t (i :: rest) → J s t rest
   goOn : ∀ s t i rest wk l r, J s t (i :: rest) → P.eligible s i = true → r ≠ .panic →
-    (∀ e ∈ l, isFireEv e = true) → (P.handle s i r).exit = none →
+    K (P.child s i) r → (∀ e ∈ l, isFireEv e = true) → (P.handle s i r).exit = none →
     J (P.handle s i r).s (pollSeg (P.child s i) i wk l r (P.handle s i r).evs t) rest
   goExit : ∀ s t i rest wk l r o, J s t (i :: rest) → P.eligible s i = true → r ≠ .panic →
-    (∀ e ∈ l, isFireEv e = true) → (P.handle s i r).exit = some o →
+    K (P.child s i) r → (∀ e ∈ l, isFireEv e = true) → (P.handle s i r).exit = some o →
     I (P.handle s i r).s (.pollEnd o :: pollSeg (P.child s i) i wk l r (P.handle s i r).evs t)
   panic : ∀ s t i rest wk l, J s t (i :: rest) → P.eligible s i = true →
     (∀ e ∈ l, isFireEv e = true) →
@@ -43,8 +81,11 @@ structure Sim {σ : Type} (P : Policy σ) (m : Mode) (I : σ → List Ev → Pro
   drop : ∀ s t, I s t → I (P.afterDrop s) (.dropEnd :: ((P.dropEvs s).reverse ++ .dropBegin :: t))
 
 namespace Sim
-variable {σ : Type} {P : Policy σ} {m : Mode} {I : σ → List Ev → Prop}
+variable {σ : Type} {P : Policy σ} {m : Mode} {K : Nat → Res → Prop} {I : σ → List Ev → Prop}
   {J : σ → List Ev → List Nat → Prop}
+
+theorem gateW_scripts' (e : Eng σ) (i : Nat) : (Eng.gateW P e i).scripts = e.w.scripts := by
+  unfold Eng.gateW; split <;> simp
 
 theorem gateW_trace (e : Eng σ) (i : Nat) : (Eng.gateW P e i).trace = e.w.trace := by
   unfold Eng.gateW; split <;> simp
@@ -55,7 +96,7 @@ theorem gateW_mode' (e : Eng σ) (i : Nat) : (Eng.gateW P e i).mode = e.w.mode :
 theorem gateW_resOf' (e : Eng σ) (i c : Nat) : (Eng.gateW P e i).resOf c = e.w.resOf c := by
   unfold Eng.gateW; split <;> simp [World.resOf, World.stepOf]
 
-theorem fireSeg (S : Sim P m I J) (s : σ) (l t : List Ev) (hl : ∀ e ∈ l, isFireEv e = true)
+theorem fireSeg (S : Sim P m K I J) (s : σ) (l t : List Ev) (hl : ∀ e ∈ l, isFireEv e = true)
     (h : I s t) : I s (l ++ t) := by
   induction l with
   | nil => exact h
@@ -65,17 +106,18 @@ theorem fireSeg (S : Sim P m I J) (s : σ) (l t : List Ev) (hl : ∀ e ∈ l, is
       (ih (fun e' he' => hl e' (List.mem_cons_of_mem _ he')))
 
 /-- one loop iteration -/
-theorem visitT (S : Sim P m I J) (e : Eng σ) (i : Nat) (rest : List Nat) (hm : e.w.mode = m)
-    (h : J e.s e.w.trace (i :: rest)) :
-    ((Eng.visit P e i).1.w.mode = m) ∧
+theorem visitT (S : Sim P m K I J) (e : Eng σ) (i : Nat) (rest : List Nat) (hm : e.w.mode = m)
+    (hk : ScriptsOk K e.w) (h : J e.s e.w.trace (i :: rest)) :
+    ((Eng.visit P e i).1.w.mode = m) ∧ ScriptsOk K (Eng.visit P e i).1.w ∧
     ((Eng.visit P e i).2 = none → J (Eng.visit P e i).1.s (Eng.visit P e i).1.w.trace rest) ∧
     (∀ o, (Eng.visit P e i).2 = some o →
       I (Eng.visit P e i).1.s (.pollEnd o :: (Eng.visit P e i).1.w.trace)) := by
+  have hkg : ScriptsOk K (Eng.gateW P e i) := hk.of_scripts (gateW_scripts' e i)
   refine Eng.visit_ind P e i
-    (fun r => (r.1.w.mode = m) ∧ (r.2 = none → J r.1.s r.1.w.trace rest) ∧
+    (fun r => (r.1.w.mode = m) ∧ ScriptsOk K r.1.w ∧ (r.2 = none → J r.1.s r.1.w.trace rest) ∧
       (∀ o, r.2 = some o → I r.1.s (.pollEnd o :: r.1.w.trace))) ?_ ?_ ?_ ?_
   · intro hl ha
-    refine ⟨hm, fun hn => by simp at hn, fun o ho => ?_⟩
+    refine ⟨hm, hk, fun hn => by simp at hn, fun o ho => ?_⟩
     simp only [Option.some.injEq] at ho
     subst ho
     have hstd : m = .std := by
@@ -84,7 +126,7 @@ theorem visitT (S : Sim P m I J) (e : Eng σ) (i : Nat) (rest : List Nat) (hm : 
       | direct => simp [World.anyReady, hmm] at ha
     exact S.earlyPend _ _ _ hstd (Or.inl hl) h
   · intro _ hg
-    refine ⟨by simp [gateW_mode', hm], fun _ => ?_, fun o ho => by simp at ho⟩
+    refine ⟨by simp [gateW_mode', hm], hkg, fun _ => ?_, fun o ho => by simp at ho⟩
     simp only [gateW_trace]
     refine S.skip _ _ _ _ ?_ h
     intro hd
@@ -96,7 +138,8 @@ theorem visitT (S : Sim P m I J) (e : Eng σ) (i : Nat) (rest : List Nat) (hm : 
       unfold Eng.gateGo at hg
       simp only [Bool.and_eq_true] at hg
       exact hg.1
-    refine ⟨by simp [gateW_mode', hm], fun hn => by simp at hn, fun o ho => ?_⟩
+    refine ⟨by simp [gateW_mode', hm],
+      (hkg.pollChild (P.child e.s i) i).of_scripts (by simp [emits_scripts]), fun hn => by simp at hn, fun o ho => ?_⟩
     simp only [Option.some.injEq] at ho
     subst ho
     obtain ⟨l, hl, hf⟩ := World.pollChild_seg (Eng.gateW P e i) (P.child e.s i) i
@@ -108,91 +151,113 @@ theorem visitT (S : Sim P m I J) (e : Eng σ) (i : Nat) (rest : List Nat) (hm : 
       simp only [Bool.and_eq_true] at hg
       exact hg.1
     obtain ⟨l, hl, hf⟩ := World.pollChild_seg (Eng.gateW P e i) (P.child e.s i) i
-    refine ⟨by simp [gateW_mode', hm], fun hn => ?_, fun o ho => ?_⟩
+    have hkr : K (P.child e.s i) (e.w.resOf (P.child e.s i)) := hk.resOf _
+    refine ⟨by simp [gateW_mode', hm],
+      (hkg.pollChild (P.child e.s i) i).of_scripts (by simp [kop_scripts, emits_scripts]), fun hn => ?_, fun o ho => ?_⟩
     · simp only [Eng.applyH_s, Eng.applyH_w, World.kop_trace, World.emits_trace, hl, gateW_trace,
         gateW_resOf']
-      exact S.goOn _ _ _ rest _ l _ h hel hp hf hn
+      exact S.goOn _ _ _ rest _ l _ h hel hp hkr hf hn
     · simp only [Eng.applyH_s, Eng.applyH_w, World.kop_trace, World.emits_trace, hl, gateW_trace,
         gateW_resOf']
-      exact S.goExit _ _ _ rest _ l _ o h hel hp hf ho
+      exact S.goExit _ _ _ rest _ l _ o h hel hp hkr hf ho
 
 /-- the loop -/
-theorem scanT (S : Sim P m I J) (l : List Nat) (e : Eng σ) (hm : e.w.mode = m)
-    (h : J e.s e.w.trace l) :
-    ((Eng.scan P l e).1.w.mode = m) ∧
+theorem scanT (S : Sim P m K I J) (l : List Nat) (e : Eng σ) (hm : e.w.mode = m)
+    (hk : ScriptsOk K e.w) (h : J e.s e.w.trace l) :
+    ((Eng.scan P l e).1.w.mode = m) ∧ ScriptsOk K (Eng.scan P l e).1.w ∧
     ((Eng.scan P l e).2 = none → J (Eng.scan P l e).1.s (Eng.scan P l e).1.w.trace []) ∧
     (∀ o, (Eng.scan P l e).2 = some o →
       I (Eng.scan P l e).1.s (.pollEnd o :: (Eng.scan P l e).1.w.trace)) := by
   induction l generalizing e with
-  | nil => exact ⟨hm, fun _ => h, fun o ho => by simp [Eng.scan] at ho⟩
+  | nil => exact ⟨hm, hk, fun _ => h, fun o ho => by simp [Eng.scan] at ho⟩
   | cons i rest ih =>
-    have hv := visitT S e i rest hm h
+    have hv := visitT S e i rest hm hk h
     unfold Eng.scan
     cases hvis : (Eng.visit P e i).2 with
     | some o =>
       simp only
-      exact ⟨hv.1, fun hn => by simp at hn, fun o' ho' => by
-        simp only [Option.some.injEq] at ho'; subst ho'; exact hv.2.2 o hvis⟩
+      exact ⟨hv.1, hv.2.1, fun hn => by simp at hn, fun o' ho' => by
+        simp only [Option.some.injEq] at ho'; subst ho'; exact hv.2.2.2 o hvis⟩
     | none =>
       simp only
-      exact ih _ hv.1 (hv.2.1 hvis)
+      exact ih _ hv.1 hv.2.1 (hv.2.2.1 hvis)
 
-theorem pollT (S : Sim P m I J) (e : Eng σ) (w : Nat) (hm : e.w.mode = m) (h : I e.s e.w.trace) :
-    (Eng.poll P e w).w.mode = m ∧ I (Eng.poll P e w).s (Eng.poll P e w).w.trace := by
+theorem pollT (S : Sim P m K I J) (e : Eng σ) (w : Nat) (hm : e.w.mode = m)
+    (hk : ScriptsOk K e.w) (h : I e.s e.w.trace) :
+    (Eng.poll P e w).w.mode = m ∧ ScriptsOk K (Eng.poll P e w).w ∧
+      I (Eng.poll P e w).s (Eng.poll P e w).w.trace := by
   unfold Eng.poll
   split
   · rename_i o ho
-    exact ⟨hm, S.pre _ _ w o ho h⟩
+    exact ⟨hm, hk.of_scripts rfl, S.pre _ _ w o ho h⟩
   · rename_i hpre
     unfold Eng.body
     simp only
     split
     · rename_i hc
       simp only [Bool.and_eq_true, Bool.not_eq_true'] at hc
-      refine ⟨hm, ?_⟩
+      refine ⟨hm, hk.of_scripts rfl, ?_⟩
       have hstd : m = .std := by
         cases hmm : e.w.mode with
         | std => rw [← hm, hmm]
         | direct => simp [World.anyReady, World.setWaker, World.emit, hmm] at hc
       exact S.earlyPend _ _ _ hstd (Or.inr hc.1) (S.start _ _ w hpre h)
     · have hs := scanT S (P.order e.s)
-        { w := (e.w.emit (.pollBegin w)).setWaker w, s := P.start e.s } hm (S.start _ _ w hpre h)
+        { w := (e.w.emit (.pollBegin w)).setWaker w, s := P.start e.s } hm (hk.of_scripts rfl)
+        (S.start _ _ w hpre h)
       unfold Eng.close
       split
       · rename_i o ho
-        exact ⟨hs.1, hs.2.2 o ho⟩
+        exact ⟨hs.1, hs.2.1.of_scripts rfl, hs.2.2.2 o ho⟩
       · rename_i ho
-        refine ⟨by simpa using hs.1, ?_⟩
+        refine ⟨by simpa using hs.1, hs.2.1.of_scripts (by simp [kop_scripts, emits_scripts]), ?_⟩
         simp only [Eng.emit_s, Eng.emit_w, Eng.applyH_s, Eng.applyH_w, World.emit_trace,
           World.kop_trace, World.emits_trace]
-        exact S.finish _ _ (hs.2.1 ho)
+        exact S.finish _ _ (hs.2.2.1 ho)
 
-theorem fireT (S : Sim P m I J) (e : Eng σ) (c a : Nat) (hm : e.w.mode = m) (h : I e.s e.w.trace) :
-    (e.fire c a).w.mode = m ∧ I (e.fire c a).s (e.fire c a).w.trace := by
+theorem fireT (S : Sim P m K I J) (e : Eng σ) (c a : Nat) (hm : e.w.mode = m)
+    (hk : ScriptsOk K e.w) (h : I e.s e.w.trace) :
+    (e.fire c a).w.mode = m ∧ ScriptsOk K (e.fire c a).w ∧
+      I (e.fire c a).s (e.fire c a).w.trace := by
   obtain ⟨l, hl, hf⟩ := World.fire_seg e.w c a
-  refine ⟨by simpa using hm, ?_⟩
+  refine ⟨by simpa using hm, hk.of_scripts (by simp), ?_⟩
   simp only [Eng.fire_s, Eng.fire_w, hl]
   exact fireSeg S _ _ _ hf h
 
-theorem dropT (S : Sim P m I J) (e : Eng σ) (hm : e.w.mode = m) (h : I e.s e.w.trace) :
-    (Eng.drop P e).w.mode = m ∧ I (Eng.drop P e).s (Eng.drop P e).w.trace := by
-  refine ⟨hm, ?_⟩
+theorem dropT (S : Sim P m K I J) (e : Eng σ) (hm : e.w.mode = m) (hk : ScriptsOk K e.w)
+    (h : I e.s e.w.trace) :
+    (Eng.drop P e).w.mode = m ∧ ScriptsOk K (Eng.drop P e).w ∧
+      I (Eng.drop P e).s (Eng.drop P e).w.trace := by
+  refine ⟨hm, hk.of_scripts rfl, ?_⟩
   simp only [Eng.drop, World.emit_trace, World.emits_trace]
   exact S.drop _ _ h
 
 /-- every reachable state of a combinator over a fixed set of children -/
 theorem runFix {P : Policy Fix} {I : Fix → List Ev → Prop} {J : Fix → List Ev → List Nat → Prop}
-    (S : Sim P m I J) (ops : List Op) (e : Eng Fix) (hm : e.w.mode = m) (h : I e.s e.w.trace) :
+    (S : Sim P m K I J) (ops : List Op) (e : Eng Fix) (hm : e.w.mode = m) (hk : ScriptsOk K e.w)
+    (h : I e.s e.w.trace) :
     I (ops.foldl (FEng.step P) e).s (ops.foldl (FEng.step P) e).w.trace := by
   induction ops generalizing e with
   | nil => exact h
   | cons op ops ih =>
     simp only [List.foldl_cons]
     cases op with
-    | poll w => exact ih _ (pollT S e w hm h).1 (pollT S e w hm h).2
-    | fire c a => exact ih _ (fireT S e c a hm h).1 (fireT S e c a hm h).2
-    | drop => exact ih _ (dropT S e hm h).1 (dropT S e hm h).2
-    | _ => exact ih _ hm h
+    | poll w => exact ih _ (pollT S e w hm hk h).1 (pollT S e w hm hk h).2.1 (pollT S e w hm hk h).2.2
+    | fire c a => exact ih _ (fireT S e c a hm hk h).1 (fireT S e c a hm hk h).2.1 (fireT S e c a hm hk h).2.2
+    | drop => exact ih _ (dropT S e hm hk h).1 (dropT S e hm hk h).2.1 (dropT S e hm hk h).2.2
+    | _ => exact ih _ hm hk h
+
+/-- children answer according to their kind -/
+def kindRes (f : Fam) : Nat → Res → Prop := fun ch r => r.fits (f.childIsStream ch) = true
+
+theorem scriptsOk_kind (c : Case) (h : c.kindOk) (w : World) (hw : w.scripts = c.scripts) :
+    ScriptsOk (kindRes c.fam) w :=
+  ⟨fun _ => rfl, fun ch st hm => h ch st (by rw [← hw]; exact hm)⟩
+
+/-- no restriction on what children answer -/
+def anyRes : Nat → Res → Prop := fun _ _ => True
+
+theorem scriptsOk_any (w : World) : ScriptsOk anyRes w := ⟨fun _ => trivial, fun _ _ _ => trivial⟩
 
 end Sim
 end Fc
